@@ -268,7 +268,18 @@ def as_step_worker_function(
                     with instrument_tags(merged_tags):
                         result = await partial_func()
                     if captured_cancelled is not None:
-                        raise captured_cancelled
+                        worker_task = asyncio.current_task()
+                        cancelling = getattr(worker_task, "cancelling", None)
+                        if cancelling is None or cancelling() > 0:
+                            # the worker itself is being cancelled (run ended, cancel_run)
+                            raise captured_cancelled
+                        # Nobody cancelled this worker: the step let the CancelledError of
+                        # something it awaited escape. Report a failed step, otherwise the
+                        # invocation never reports back and its slot is held for ever.
+                        raise WorkflowRuntimeError(
+                            f"Step function {step_name} raised CancelledError although "
+                            "it was not cancelled"
+                        ) from captured_cancelled
                     if captured_waiting is not None:
                         raise captured_waiting
                 if result is not None and not isinstance(result, Event):
